@@ -40,6 +40,24 @@ def rule_grp(A: Analysis, rep):
     rep.check(bool(binds) and bool(execs) and all(gc.all_paths_pass(gc.entry, e, [b[0] for b in binds], skip_labels=None) for e in execs) and
               all(norm(e.ast) == "exec(code, %s)" % binds[0][5] for e in execs), "GRP3", "stdlib evaluated after the task constructors are bound, in the same scope", cs.node, "",
               "the stdlib file is not exec'd into the scope after run_experiment/combine were bound")
+    # GRP6: the expansion only *defines* tasks: besides its two documented rejections it calls nothing of Conductor's
+    # that can reject (the explicit tasks are validated when they are loaded for a target, not when the file is read)
+    CE_ = "conductor.errors.base.ConductorError"
+    n_calls = 0
+    for c in walk_local(fi.node):
+        if not isinstance(c, ast.Call):
+            continue
+        for cal in A.res.callees(c):
+            if not cal.startswith("conductor."):
+                continue
+            n_calls += 1
+            is_exc_cls = cal in A.prog.classes and A.prog.is_subclass(cal, CE_)
+            init_of_exc = cal.endswith(".__init__") and cal.rsplit(".", 1)[0] in A.prog.classes and A.prog.is_subclass(cal.rsplit(".", 1)[0], CE_)
+            is_instance = cal.startswith("conductor.%s.ExperimentInstance" % MOD)
+            is_ctor = cal.endswith(("RawTaskType.load_from_cond_file", "TaskLoader._wrap_task_function.shim"))
+            rep.check(is_exc_cls or init_of_exc or is_instance or is_ctor, "GRP6", "the expansion calls only the task constructors (%s)" % cal.replace("conductor.", ""), c,
+                      "", "`%s` is evaluated while the COND file is read: a value the explicit run_experiment() form would only reject when that task is loaded now rejects the whole file, for every target" % norm(c)[:70])
+    rep.notes.append("GRP6: %d resolved project calls in run_experiment_group" % n_calls)
     # GRP5: the iterable is consumed exactly once
     uses = [n for n in walk_local(fi.node) if isinstance(n, ast.Name) and n.id == exps and isinstance(n.ctx, ast.Load)]
     loops = [l for l in walk_local(fi.node) if isinstance(l, ast.For) and norm(l.iter) == exps]
